@@ -55,7 +55,66 @@ type op struct {
 	Sec  int64  `json:"sec,omitempty"`  // advance: seconds; plant: age in seconds; trimtxt: offset seconds (now - value)
 	Name string `json:"name,omitempty"` // plant: relative path
 	Txt  string `json:"txt,omitempty"`  // trimtxt: literal content ("" => use Sec; "missing" => delete)
+	// put with TrimAt > 0: while this Put has copied TrimAt-1 bytes of its second pass, another user of the directory
+	// (its own handle) runs Trim; the Put then carries on. (No second pass happens when the output is already there.)
+	TrimAt int `json:"trim_at,omitempty"`
+	// trimtxt with Txt == "": how the value now-Sec is written (fmt verbs applied to the Unix time; "" => "%d").
+	// The record counts as a time exactly when the whole content, surrounding white space aside, is a decimal integer.
+	Fmt string `json:"fmt,omitempty"`
 }
+
+// recordValue is the reference reading of trim.txt, written from the statement ("the last completed trim" as a decimal
+// Unix time; anything else is a corrupt record and a trim is due): optional sign, decimal digits only, fits int64.
+func recordValue(content string) (int64, bool) {
+	t := strings.TrimSpace(content)
+	neg := false
+	if strings.HasPrefix(t, "+") || strings.HasPrefix(t, "-") {
+		neg = t[0] == '-'
+		t = t[1:]
+	}
+	if t == "" || len(t) > 40 {
+		return 0, false
+	}
+	var v uint64
+	for _, ch := range []byte(t) {
+		if ch < '0' || ch > '9' {
+			return 0, false
+		}
+		d := uint64(ch - '0')
+		if v > (1<<63)/10+1 {
+			return 0, false
+		}
+		v = v*10 + d
+		if v > 1<<63 {
+			return 0, false
+		}
+	}
+	if neg {
+		if v > 1<<63 {
+			return 0, false
+		}
+		return -int64(v), true
+	}
+	if v > 1<<63-1 {
+		return 0, false
+	}
+	return int64(v), true
+}
+
+func formatRecord(f string, v int64) string {
+	if f == "" {
+		return strconv.FormatInt(v, 10)
+	}
+	n := strings.Count(f, "%")
+	args := make([]any, 0, n)
+	for i := 0; i < n; i++ {
+		args = append(args, v-int64(i)*86400*3) // a second value, if the format has one, is an older time
+	}
+	return fmt.Sprintf(f, args...)
+}
+
+// the first six are other spellings of the same decimal number, the rest are corrupt records that begin like one
+var recordFmts = []string{"%d\n", "  %d  ", "+%d", "00%d", "%d\r\n", "\t%d", "%d\n%d", "%d # last trim", "%d.5", "%dx", "0x%x", "%d %d", "%d\x00", "%de2", "%d_0", "0o%o", "%d,"}
 
 type histCase struct {
 	Ops []op `json:"ops"`
@@ -179,6 +238,110 @@ func checkHist(h histCase) *vt.Fail {
 	var trail []string
 	var handles [2]*cache.Cache
 	cur := 0
+	// doTrim runs Trim through the given handle and holds the outcome against the model.
+	doTrim := func(tc *cache.Cache, ctx string) *vt.Fail {
+		before := snapshot(d)
+		t0 := time.Now()
+		var terr error
+		if f := vt.Guard("trim-panic", func() *vt.Fail { terr = tc.Trim(); return nil }); f != nil {
+			return f
+		}
+		now := time.Now()
+		if terr != nil {
+			return vt.Failf("trim-error", "%s: Trim: %v", ctx, terr)
+		}
+		after := snapshot(d)
+		// classify dueness
+		due, notDue := false, false
+		switch trimState {
+		case "missing", "garbage":
+			due = true
+		default:
+			dd := now.Sub(lastTrim)
+			switch {
+			case dd > day+margin || dd < -(time.Hour+margin):
+				due = true
+			case dd > margin && dd < day-margin:
+				notDue = true
+			}
+		}
+		// S2: non-entry files untouched; S1: fresh entry files survive
+		for rel, f := range files {
+			if !f.exists {
+				continue
+			}
+			a, ok := after[rel]
+			b := before[rel]
+			if !f.entry {
+				if !ok || a.sum != b.sum || a.size != b.size || !a.mtime.Equal(b.mtime) {
+					return vt.Failf("non-entry-file-touched", "%s: Trim changed or removed the non-entry file %q", ctx, rel)
+				}
+				continue
+			}
+			age := now.Sub(f.lastUse)
+			if age < 5*day-margin && !ok {
+				return vt.Failf("fresh-entry-removed", "%s: Trim removed %q which was stored or looked up %v ago (< 5 days)", ctx, rel, age.Round(time.Second))
+			}
+		}
+		if tx, ok := before["trim.txt"]; ok && notDue {
+			_ = tx
+		}
+		if notDue {
+			if df := diffSnap(before, after); df != "" {
+				return vt.Failf("trim-not-due-but-acted", "%s: last trim completed %v ago (< 1 day) but Trim changed the directory: %s", ctx, now.Sub(lastTrim).Round(time.Second), df)
+			}
+		}
+		if due {
+			for rel, f := range files {
+				if !f.exists || !f.entry {
+					continue
+				}
+				age := t0.Sub(f.lastUse)
+				if _, ok := after[rel]; ok && age > 5*day+time.Hour+margin {
+					return vt.Failf("stale-entry-kept", "%s: a trim was due but %q, unused for %v (> 5 days + 1 hour), is still there", ctx, rel, age.Round(time.Second))
+				}
+			}
+			b, rerr := os.ReadFile(filepath.Join(d, "trim.txt"))
+			v, perr := strconv.ParseInt(strings.TrimSpace(string(b)), 10, 64)
+			if rerr != nil || perr != nil || time.Unix(v, 0).Before(t0.Add(-margin)) || time.Unix(v, 0).After(now.Add(margin)) {
+				return vt.Failf("trim-time-not-recorded", "%s: a trim was due but trim.txt holds %q (err %v) instead of the current time", ctx, b, rerr)
+			}
+			trimState = "value"
+			lastTrim = time.Unix(v, 0)
+		} else if !notDue {
+			// grey zone: learn what happened
+			if b, err := os.ReadFile(filepath.Join(d, "trim.txt")); err == nil {
+				if v, err := strconv.ParseInt(strings.TrimSpace(string(b)), 10, 64); err == nil {
+					trimState, lastTrim = "value", time.Unix(v, 0)
+				}
+			}
+		}
+		// sync existence with reality (grey-zone files)
+		for rel, f := range files {
+			if f.exists {
+				if _, ok := after[rel]; !ok {
+					f.exists = false
+				}
+			}
+		}
+		// S1 (readability): an id whose two files are fresh must still be readable with its bytes
+		for i, cn2 := range stored {
+			ix, df := files[idxRel(i)], files[datRel(cn2)]
+			if ix == nil || df == nil {
+				continue
+			}
+			if now.Sub(ix.lastUse) < 5*day-margin && now.Sub(df.lastUse) < 5*day-margin {
+				// reading would refresh mtimes (allowed: a lookup is a use), so model it
+				data, _, gerr := tc.GetBytes(cache.ActionID(cachekit.ID(i)))
+				if gerr != nil || !bytes.Equal(data, cachekit.Content(cn2)) {
+					return vt.Failf("fresh-entry-unreadable", "%s: id%d was stored or looked up within five days but GetBytes after Trim fails: %v", ctx, i, gerr)
+				}
+				use(idxRel(i))
+				use(datRel(cn2))
+			}
+		}
+		return nil
+	}
 	for step, o := range h.Ops {
 		if o.ID < 0 || o.ID >= nIDs || o.C < 0 || o.C >= nCont {
 			continue
@@ -200,8 +363,36 @@ func checkHist(h histCase) *vt.Fail {
 			}
 			c = handles[cur]
 		case "put":
-			if err := c.PutBytes(id, content); err != nil {
+			nested := false
+			if o.TrimAt > 0 && o.TrimAt <= len(content) {
+				// the other user's handle: opened for the occasion, like another process would
+				oc, oerr := cache.Open(d)
+				if oerr != nil {
+					return vt.Failf("HARNESS-open", "%v", oerr)
+				}
+				var tf *vt.Fail
+				src := &cachekit.HookSrc{Data: content, Pass: 2, At: o.TrimAt - 1, Fn: func() { tf = doTrim(oc, ctx+" [trim by another user]") }}
+				if _, _, err := c.Put(id, src); err != nil {
+					return vt.Failf("put-failed", "%s: %v", ctx, err)
+				}
+				if tf != nil {
+					return tf
+				}
+				nested = src.Fired
+			} else if err := c.PutBytes(id, content); err != nil {
 				return vt.Failf("put-failed", "%s: %v", ctx, err)
+			}
+			if nested {
+				// what this Put stored is not stale, whatever the trim next to it found: it must be readable now
+				data, _, gerr := c.GetBytes(id)
+				if gerr != nil || !bytes.Equal(data, content) {
+					return vt.Failf("entry-lost-to-concurrent-trim", "%s: another user trimmed the cache while this Put had copied %d bytes; Put returned nil but GetBytes fails: %v", ctx, o.TrimAt-1, gerr)
+				}
+				if file, _, gerr := c.GetFile(id); gerr != nil {
+					return vt.Failf("entry-lost-to-concurrent-trim", "%s: another user trimmed the cache while this Put had copied %d bytes; Put returned nil but GetFile fails: %v", ctx, o.TrimAt-1, gerr)
+				} else if fb, _ := os.ReadFile(file); !bytes.Equal(fb, content) {
+					return vt.Failf("entry-lost-to-concurrent-trim", "%s: after a trim next to this Put GetFile names a file with other content", ctx)
+				}
 			}
 			now := time.Now()
 			files[idxRel(o.ID)] = &frec{entry: true, exists: true, lastUse: now}
@@ -294,110 +485,18 @@ func checkHist(h histCase) *vt.Fail {
 				trimState = "garbage"
 			default:
 				v := time.Now().Add(-time.Duration(o.Sec) * time.Second)
-				os.WriteFile(tp, []byte(strconv.FormatInt(v.Unix(), 10)), 0o666)
-				trimState = "value"
-				lastTrim = time.Unix(v.Unix(), 0)
+				content := formatRecord(o.Fmt, v.Unix())
+				os.WriteFile(tp, []byte(content), 0o666)
+				if rv, ok := recordValue(content); ok {
+					trimState = "value"
+					lastTrim = time.Unix(rv, 0)
+				} else {
+					trimState = "garbage"
+				}
 			}
 		case "trim":
-			before := snapshot(d)
-			t0 := time.Now()
-			var terr error
-			if f := vt.Guard("trim-panic", func() *vt.Fail { terr = c.Trim(); return nil }); f != nil {
+			if f := doTrim(c, ctx); f != nil {
 				return f
-			}
-			now := time.Now()
-			if terr != nil {
-				return vt.Failf("trim-error", "%s: Trim: %v", ctx, terr)
-			}
-			after := snapshot(d)
-			// classify dueness
-			due, notDue := false, false
-			switch trimState {
-			case "missing", "garbage":
-				due = true
-			default:
-				dd := now.Sub(lastTrim)
-				switch {
-				case dd > day+margin || dd < -(time.Hour+margin):
-					due = true
-				case dd > margin && dd < day-margin:
-					notDue = true
-				}
-			}
-			// S2: non-entry files untouched; S1: fresh entry files survive
-			for rel, f := range files {
-				if !f.exists {
-					continue
-				}
-				a, ok := after[rel]
-				b := before[rel]
-				if !f.entry {
-					if !ok || a.sum != b.sum || a.size != b.size || !a.mtime.Equal(b.mtime) {
-						return vt.Failf("non-entry-file-touched", "%s: Trim changed or removed the non-entry file %q", ctx, rel)
-					}
-					continue
-				}
-				age := now.Sub(f.lastUse)
-				if age < 5*day-margin && !ok {
-					return vt.Failf("fresh-entry-removed", "%s: Trim removed %q which was stored or looked up %v ago (< 5 days)", ctx, rel, age.Round(time.Second))
-				}
-			}
-			if tx, ok := before["trim.txt"]; ok && notDue {
-				_ = tx
-			}
-			if notDue {
-				if df := diffSnap(before, after); df != "" {
-					return vt.Failf("trim-not-due-but-acted", "%s: last trim completed %v ago (< 1 day) but Trim changed the directory: %s", ctx, now.Sub(lastTrim).Round(time.Second), df)
-				}
-			}
-			if due {
-				for rel, f := range files {
-					if !f.exists || !f.entry {
-						continue
-					}
-					age := t0.Sub(f.lastUse)
-					if _, ok := after[rel]; ok && age > 5*day+time.Hour+margin {
-						return vt.Failf("stale-entry-kept", "%s: a trim was due but %q, unused for %v (> 5 days + 1 hour), is still there", ctx, rel, age.Round(time.Second))
-					}
-				}
-				b, rerr := os.ReadFile(filepath.Join(d, "trim.txt"))
-				v, perr := strconv.ParseInt(strings.TrimSpace(string(b)), 10, 64)
-				if rerr != nil || perr != nil || time.Unix(v, 0).Before(t0.Add(-margin)) || time.Unix(v, 0).After(now.Add(margin)) {
-					return vt.Failf("trim-time-not-recorded", "%s: a trim was due but trim.txt holds %q (err %v) instead of the current time", ctx, b, rerr)
-				}
-				trimState = "value"
-				lastTrim = time.Unix(v, 0)
-			} else if !notDue {
-				// grey zone: learn what happened
-				if b, err := os.ReadFile(filepath.Join(d, "trim.txt")); err == nil {
-					if v, err := strconv.ParseInt(strings.TrimSpace(string(b)), 10, 64); err == nil {
-						trimState, lastTrim = "value", time.Unix(v, 0)
-					}
-				}
-			}
-			// sync existence with reality (grey-zone files)
-			for rel, f := range files {
-				if f.exists {
-					if _, ok := after[rel]; !ok {
-						f.exists = false
-					}
-				}
-			}
-			// S1 (readability): an id whose two files are fresh must still be readable with its bytes
-			for i, cn2 := range stored {
-				ix, df := files[idxRel(i)], files[datRel(cn2)]
-				if ix == nil || df == nil {
-					continue
-				}
-				if now.Sub(ix.lastUse) < 5*day-margin && now.Sub(df.lastUse) < 5*day-margin {
-					// reading would refresh mtimes (allowed: a lookup is a use), so model it
-					data, _, gerr := c.GetBytes(cache.ActionID(cachekit.ID(i)))
-					if gerr != nil || !bytes.Equal(data, cachekit.Content(cn2)) {
-						return vt.Failf("fresh-entry-unreadable", "%s: id%d was stored or looked up within five days but GetBytes after Trim fails: %v", ctx, i, gerr)
-					}
-					use(idxRel(i))
-					use(datRel(cn2))
-				}
 			}
 		}
 	}
@@ -407,6 +506,9 @@ func checkHist(h histCase) *vt.Fail {
 func descr(o op) string {
 	switch o.Op {
 	case "put":
+		if o.TrimAt > 0 {
+			return fmt.Sprintf("put(id%d,c%d,another user trims at offset %d)", o.ID, o.C, o.TrimAt-1)
+		}
 		return fmt.Sprintf("put(id%d,c%d)", o.ID, o.C)
 	case "get", "getbytes", "getfile":
 		return fmt.Sprintf("%s(id%d)", o.Op, o.ID)
@@ -419,6 +521,9 @@ func descr(o op) string {
 	case "trimtxt":
 		if o.Txt != "" {
 			return fmt.Sprintf("trimtxt(%q)", o.Txt)
+		}
+		if o.Fmt != "" {
+			return fmt.Sprintf("trimtxt(now-%v written as %q)", time.Duration(o.Sec)*time.Second, o.Fmt)
 		}
 		return fmt.Sprintf("trimtxt(now-%v)", time.Duration(o.Sec)*time.Second)
 	}
@@ -467,7 +572,12 @@ func genSkeleton(t *rapid.T) histCase {
 	}
 	add(op{Op: "advance", Sec: rapid.SampledFrom([]int64{4*dy + 23*hr, 5*dy - 5*mn, 5*dy + 5*mn, 5*dy + hr - 5*mn, 5*dy + hr + 5*mn, 6 * dy, 4 * dy}).Draw(t, "big")})
 	for i, nf := 0, rapid.IntRange(0, 2).Draw(t, "nfresh"); i < nf; i++ {
-		add(op{Op: "put", ID: rapid.IntRange(0, nIDs-1).Draw(t, "id"), C: rapid.IntRange(0, nCont-1).Draw(t, "c")})
+		o := op{Op: "put", ID: rapid.IntRange(0, nIDs-1).Draw(t, "id"), C: rapid.IntRange(0, nCont-1).Draw(t, "c")}
+		if rapid.IntRange(0, 3).Draw(t, "trimnext") == 2 {
+			// another user's (due) trim while this fresh entry is being stored
+			o.TrimAt = 1 + rapid.SampledFrom([]int{0, 0, 1, 70, 138}).Draw(t, "trimat")
+		}
+		add(o)
 	}
 	if rapid.IntRange(0, 4).Draw(t, "record") == 0 {
 		o := op{Op: "trimtxt"}
@@ -478,6 +588,9 @@ func genSkeleton(t *rapid.T) histCase {
 			o.Txt = rapid.SampledFrom(trimTxts[1:]).Draw(t, "ttxt")
 		default:
 			o.Sec = rapid.SampledFrom([]int64{10 * mn, 23 * hr, 25 * hr, -30 * mn, -2 * hr, -3 * dy}).Draw(t, "toff")
+			if rapid.Bool().Draw(t, "spelled") {
+				o.Fmt = rapid.SampledFrom(recordFmts).Draw(t, "rfmt")
+			}
 		}
 		add(o)
 	}
@@ -513,6 +626,9 @@ func genHist(t *rapid.T) histCase {
 			o.Op = "switch"
 		case 0, 1, 2:
 			o.Op = "put"
+			if rapid.IntRange(0, 5).Draw(t, "trimnext") == 4 {
+				o.TrimAt = 1 + rapid.SampledFrom([]int{0, 0, 1, 70, 138}).Draw(t, "trimat")
+			}
 		case 3, 4, 5, 6:
 			o.Op = "advance"
 			o.Sec = rapid.SampledFrom(advances).Draw(t, "adv")
@@ -539,6 +655,9 @@ func genHist(t *rapid.T) histCase {
 				o.Txt = rapid.SampledFrom(trimTxts[1:]).Draw(t, "ttxt")
 			default:
 				o.Sec = rapid.SampledFrom([]int64{10 * mn, 23 * hr, 25 * hr, 10 * dy, -30 * mn, -2 * hr, -3 * dy, 1 * hr}).Draw(t, "toff")
+				if rapid.IntRange(0, 2).Draw(t, "spelled") == 1 {
+					o.Fmt = rapid.SampledFrom(recordFmts).Draw(t, "rfmt")
+				}
 			}
 		}
 		h.Ops = append(h.Ops, o)
@@ -573,9 +692,15 @@ func metaHist(h histCase) vt.Meta {
 				sinceTrim += o.Sec
 			}
 		case "trimtxt":
-			if o.Txt != "" {
+			if _, ok := recordValue(formatRecord(o.Fmt, 1790000000)); o.Txt != "" || !ok {
 				sinceTrim = -1
+				if o.Txt == "" {
+					cl = append(cl, "record-begins-like-a-time-but-is-corrupt")
+				}
 			} else {
+				if o.Fmt != "" {
+					cl = append(cl, "record-in-another-spelling")
+				}
 				sinceTrim = o.Sec
 				if o.Sec < -hr {
 					sinceTrim = -1
@@ -637,6 +762,13 @@ var scenarios = []histCase{
 	// future / corrupt records
 	{Ops: []op{{Op: "put", ID: 0, C: 1}, {Op: "advance", Sec: 6 * dy}, {Op: "trimtxt", Sec: -3 * dy}, {Op: "trim"}}},
 	{Ops: []op{{Op: "put", ID: 0, C: 1}, {Op: "advance", Sec: 6 * dy}, {Op: "trimtxt", Txt: "12x"}, {Op: "trim"}}},
+	// a corrupt record that begins with a recent time: a trim is due; a recent time in another decimal spelling: not due
+	{Ops: []op{{Op: "put", ID: 0, C: 1}, {Op: "advance", Sec: 6 * dy}, {Op: "trimtxt", Sec: hr, Fmt: "%d\n%d"}, {Op: "trim"}}},
+	{Ops: []op{{Op: "put", ID: 0, C: 1}, {Op: "advance", Sec: 6 * dy}, {Op: "trimtxt", Sec: hr, Fmt: "%d.5"}, {Op: "trim"}}},
+	{Ops: []op{{Op: "put", ID: 0, C: 1}, {Op: "advance", Sec: 6 * dy}, {Op: "trimtxt", Sec: hr, Fmt: "00%d"}, {Op: "trim"}}},
+	// another user's trim (due: no record yet) just after this Put has created its empty output file, and part-way through
+	{Ops: []op{{Op: "put", ID: 0, C: 1, TrimAt: 1}, {Op: "getfile", ID: 0}}},
+	{Ops: []op{{Op: "put", ID: 1, C: 2}, {Op: "advance", Sec: 6 * dy}, {Op: "put", ID: 0, C: 1, TrimAt: 71}, {Op: "getbytes", ID: 0}, {Op: "get", ID: 1}}},
 	{Ops: []op{{Op: "put", ID: 0, C: 1}, {Op: "advance", Sec: 4 * dy}, {Op: "get", ID: 0}, {Op: "advance", Sec: 4 * dy}, {Op: "trim"}, {Op: "get", ID: 0}}},
 }
 
